@@ -1,9 +1,15 @@
 mod c01;
 mod c02;
+mod c03;
+mod c03_ref;
+mod c04;
 mod common;
 
 fn main() {
     let raw: Vec<String> = std::env::args().collect();
+    if raw.len() > 2 && raw[1] == "--child" && raw[2].starts_with("c04") {
+        c04::child(&raw[2..]);
+    }
     if raw.len() > 2 && raw[1] == "--child" {
         c02::child(&raw[2..]);
     }
@@ -11,6 +17,8 @@ fn main() {
     match args.prop.as_str() {
         "C01" => c01::run(&args),
         "C02" => c02::run(&args),
+        "C03" => c03::run(&args),
+        "C04" => c04::run(&args),
         "DUMP" => {
             let text = args.extra.get("text").cloned().unwrap_or_default();
             let text = text.replace("\\n", "\n").replace("\\0", "\0").replace("\\r", "\r");
